@@ -72,6 +72,7 @@ typedef struct vw_proc {
 	fd_set *rfds; int nfds;
 	int64_t deadline;
 	unsigned rand_state;
+	int rand_forced[8]; int nrand_forced, rand_forced_pos;   /* harness-chosen rand() results, consumed first */
 	long nselects;
 	/* arena for calloc() redirected from the image (server users[]) */
 	char *arena; size_t arena_sz, arena_used;
